@@ -282,6 +282,47 @@ func coincidenceUnit() harness.Unit {
 					}
 				}
 			}
+			// (3) SMALL r or s chosen first, e solved from the verification equation: for such a valid
+			// triple r+n or s+n is still below 2^256 - a range test by bit length would let it through,
+			// and it acts as the same value mod n. Outside [1, n-1] means refused.
+			for _, small := range []int64{1, 7, 65537, 1 << 40} {
+				for _, which := range []string{"s", "r"} {
+					rv, sv := new(big.Int).Set(key.D), big.NewInt(small) // r arbitrary (the private scalar is as good as any), s small
+					if which == "r" {
+						rv, sv = big.NewInt(small), new(big.Int).Set(key.D)
+					}
+					t := new(big.Int).Mod(new(big.Int).Add(rv, sv), n)
+					if t.Sign() == 0 {
+						continue
+					}
+					pt := refsm2.Add(refsm2.BaseMul(sv), refsm2.Mul(t, key.Pub))
+					if pt.Inf {
+						continue
+					}
+					e := new(big.Int).Mod(new(big.Int).Sub(rv, pt.X), n)
+					tag := fmt.Sprintf("key %s: triple with %s = %d and e solved from the verification equation", key.Name, which, small)
+					c.Add("evaluations", 1)
+					c.DistinctS("nontrivial", tag)
+					if !refsm2.Verify(key.Pub, e, rv, sv) {
+						c.Note("construction failed for %s", tag)
+						c.Add("harness_divergences", 1)
+						continue
+					}
+					var got bool
+					if !c.Guard("verify-hash-panic:small-scalar", tag, nil, func() { got = sm2.Verify(pub, pad32(e), rv, sv) }) && !got {
+						c.Violate("verify-hash-rejects-valid:small-"+which, fmt.Sprintf("[%s] sm2.Verify rejects (e=%x r=%x s=%x)", tag, e, rv, sv), nil, nil)
+					}
+					r2, s2 := rv, sv
+					if which == "s" {
+						s2 = new(big.Int).Add(sv, n)
+					} else {
+						r2 = new(big.Int).Add(rv, n)
+					}
+					if !c.Guard("verify-hash-panic:small-scalar", tag, nil, func() { got = sm2.Verify(pub, pad32(e), r2, s2) }) && got {
+						c.Violate("verify-hash-accepts:"+which+"-plus-n-below-2^256", fmt.Sprintf("[%s] sm2.Verify accepts %s + n (r=%x s=%x), a value outside [1, n-1]", tag, which, r2, s2), nil, nil)
+					}
+				}
+			}
 		}
 	}}
 }
